@@ -20,7 +20,7 @@ import (
 // C33: root registry of abft.Store.  Case: <RootsNum> <RootsFrames> ; op ; op ; ...
 //   A spf frame creator idhex : Store.AddRoot(spf, event{Frame, Creator, ID})
 //   G f                       : Store.GetFrameRoots(f)
-//   R                         : Orderer.Reset(epoch+1, validators) = dropEpochDB + openEpochDB
+//   R | RS | RL               : Orderer.Reset(epoch+1 | same epoch | epoch-1, validators) = dropEpochDB + openEpochDB
 //   B                         : restart = new Store + Orderer over the same main/epoch DBs, Bootstrap
 // The store is set up as a node does: NewStore, ApplyGenesis, NewOrderer(...).Bootstrap (which opens
 // the epoch DB and reads frame 1 once).  Observation per op: "; ok" or "; g<frame:validator:idhex,...>".
@@ -150,8 +150,19 @@ func c33RunRaw(in []string) (obs []string) {
 				vu.Stat("restart_bootstrap_err")
 			}
 			obs = append(obs, ";", "ok")
-		case "R":
-			epoch++
+		case "R", "RS", "RL":
+			// Reset drops the current epoch DB (dropEpochDB) and opens the DB of the target epoch:
+			// the next number (R), the SAME number again (RS) or a lower one (RL).  A dropped
+			// database is gone: the producer makes a new, empty one when that number is opened again.
+			delete(epochDBs, epoch)
+			switch o[0] {
+			case "R":
+				epoch++
+			case "RL":
+				if epoch > 1 {
+					epoch--
+				}
+			}
 			if err := orderer.Reset(epoch, vals); err != nil {
 				panic(err)
 			}
@@ -214,7 +225,18 @@ func c33GenOps(r *rand.Rand, n int) []string {
 		case x < 95:
 			out = append(out, "B")
 		default:
-			out = append(out, "R")
+			// epoch switch: to the next, the same or a lower epoch number, sometimes twice in a
+			// row, and queried right away (frames that were cached must come back empty)
+			kinds := []string{"R", "R", "RS", "RS", "RL"}
+			out = append(out, kinds[r.Intn(len(kinds))])
+			if r.Intn(3) == 0 {
+				out = append(out, ";", kinds[r.Intn(len(kinds))])
+			}
+			for _, f := range []int{1, 2, 3} {
+				if r.Intn(2) == 0 {
+					out = append(out, ";", "G", strconv.Itoa(f))
+				}
+			}
 		}
 	}
 	// final sweep over the small frames and the boundary ones
@@ -236,6 +258,18 @@ func init() {
 					emit(strconv.Itoa(a), strconv.Itoa(b), ";", "G", "1", ";", "A", "0", "1", "1", c33ids[1], ";", "A", "0", "1", "1", c33ids[7],
 						";", "A", "0", "1", "1", c33ids[1], ";", "G", "1", ";", "A", "0", "3", "2", c33ids[4], ";", "G", "2", ";", "G", "3", ";", "G", "1",
 						";", "A", "1", "2", "3", c33ids[5], ";", "G", "2", ";", "B", ";", "G", "3", ";", "G", "1", ";", "G", "2", ";", "R", ";", "G", "1", ";", "G", "2", ";", "A", "0", "1", "4", c33ids[2], ";", "G", "1")
+				}
+			}
+			// epoch switch to the same / a lower epoch number while frames with roots are cached
+			for _, a := range nums {
+				for _, b := range frs {
+					for _, k := range [][]string{{"RS"}, {"RL"}, {"RS", ";", "RS"}, {"R", ";", "RL"}, {"R", ";", "RS"}, {"RL", ";", "R"}} {
+						in := []string{strconv.Itoa(a), strconv.Itoa(b), ";", "A", "0", "2", "1", c33ids[1], ";", "A", "1", "2", "2", c33ids[6],
+							";", "G", "1", ";", "G", "2", ";"}
+						in = append(in, k...)
+						in = append(in, ";", "G", "1", ";", "G", "2", ";", "A", "0", "1", "3", c33ids[3], ";", "G", "1", ";", "G", "2", ";", "B", ";", "G", "1")
+						emit(in...)
+					}
 				}
 			}
 			for i := 0; i < n; i++ {
